@@ -34,39 +34,54 @@ def findRow (op : String) : List ApplyRow → Option ApplyRow
   | [] => none
   | r :: rest => if r.aliases.contains op then some r else findRow op rest
 
-/-- `BDD.apply(op, u, v, w)` -/
-def apply (op : String) (u : Int) (v w : Option Int) : M Int := do
-  liftE (assertOperatorArity op v w)
-  let m ← M.get
-  if !m.mem u then M.throw .value
-  match v with
-  | some v => if !m.mem v then M.throw .value
-  | none => pure ()
-  match w with
-  | some w => if !m.mem w then M.throw .value
-  | none => pure ()
-  match findRow op Gen.applyTable with
-  | none => M.throw .value
-  | some row =>
-    match row.templ with
-    | .neg => return -u
-    | .ite a b c =>
-      -- the `elif v is None` / `elif w is None` guards
-      let vv ← M.ofOption .value v
-      let needsW := a = .w || a = .nw || b = .w || b = .nw || c = .w || c = .nw
-      let ww ← (if needsW then M.ofOption .value w else pure (w.getD 0))
-      let a ← liftE (atomVal u vv ww a)
-      let b ← liftE (atomVal u vv ww b)
-      let c ← liftE (atomVal u vv ww c)
-      ite a b c
-    | .quant fa frm body =>
-      let vv ← M.ofOption .value v
-      let f ← liftE (atomVal u vv 0 frm)
-      let b ← liftE (atomVal u vv 0 body)
-      let q ← liftE (support m.tbl f)
-      quantify b (q.map Key.name) fa
-    | .notImpl => M.throw .notImplemented
-    | .bad => M.throw .other
+def atomUsesW : Atom → Bool
+  | .w | .nw => true
+  | _ => false
+
+/-- `abs(x) not in self` for an optional operand -/
+def optNotMem (m : Mgr) : Option Int → Bool
+  | some x => !m.mem x
+  | none => false
+
+/-- `BDD.apply(op, u, v, w)`; written without `do` so that proofs can unfold it -/
+def apply (op : String) (u : Int) (v w : Option Int) : M Int := fun m =>
+  match assertOperatorArity op v w with
+  | .error e => (.error e, m)
+  | .ok _ =>
+    if !m.mem u then (.error .value, m) else
+    if optNotMem m v then (.error .value, m) else
+    if optNotMem m w then (.error .value, m) else
+    match findRow op Gen.applyTable with
+    | none => (.error .value, m)
+    | some row =>
+      match row.templ with
+      | .neg => (.ok (-u), m)
+      | .ite a b c =>
+        -- the `elif v is None` / `elif w is None` guards
+        match v with
+        | none => (.error .value, m)
+        | some vv =>
+          match (if atomUsesW a || atomUsesW b || atomUsesW c then w else some (w.getD 0)) with
+          | none => (.error .value, m)
+          | some ww =>
+            match atomVal u vv ww a, atomVal u vv ww b, atomVal u vv ww c with
+            | .ok a, .ok b, .ok c => ite a b c m
+            | .error e, _, _ => (.error e, m)
+            | _, .error e, _ => (.error e, m)
+            | _, _, .error e => (.error e, m)
+      | .quant fa frm body =>
+        match v with
+        | none => (.error .value, m)
+        | some vv =>
+          match atomVal u vv 0 frm, atomVal u vv 0 body with
+          | .ok f, .ok b =>
+            match support m.tbl f with
+            | .error e => (.error e, m)
+            | .ok q => quantify b (q.map Key.name) fa m
+          | .error e, _ => (.error e, m)
+          | _, .error e => (.error e, m)
+      | .notImpl => (.error .notImplemented, m)
+      | .bad => (.error .other, m)
 
 /-- `BDD.cube(dvars)` -/
 def cube (dvars : List (String × Bool)) : M Int := tryToReorder do
